@@ -8,7 +8,7 @@ a = ap.parse_args()
 SD = '/verif/seeded'
 seeds = a.seeds or sorted(d for d in os.listdir(SD) if os.path.isdir(os.path.join(SD, d)))
 for s in seeds:
-    pid = s.split('-')[0]
+    import re as _re; pid = _re.match(r'C\d+', s).group(0)
     props = a.props.split(',') if a.props else [pid]
     wt = '/tmp/wt/seedrun_%s' % s
     subprocess.run(['git', '-C', '/repo', 'worktree', 'remove', '--force', wt], capture_output=True)
